@@ -71,14 +71,14 @@ theorem goodRest_nsAttr (ns : Option Bytes) : GoodRest (nsAttr ns) := by
     refine Or.inr ⟨escape uri, ?_, fun c hc => (escape_no uri c hc).2⟩
     simp [nsAttr, attrOf]
 
-theorem WN_textEv (st : List Bytes) (x : Bytes) (t : List Ev) (ht : WN st t) (hh : headNotText t = true) :
-    WN st (textEv (escapeText x) ++ t) := by
+theorem WN_textEv (st : List Bytes) (hst : st ≠ []) (x : Bytes) (t : List Ev) (ht : WN st t)
+    (hh : headNotText t = true) : WN st (textEv (escapeText x) ++ t) := by
   unfold textEv
   split
   · simpa using ht
   · rename_i hne
     simp only [List.cons_append, List.nil_append, WN]
-    exact ⟨hne, escapeText_no x, hh, ht⟩
+    exact ⟨Or.inl hst, hne, escapeText_no x, hh, ht⟩
 
 theorem WN_elem (st : List Bytes) (tag : Bytes) (inner t : List Ev) (hg : goodName tag = true)
     (hi : WN (tag :: st) (inner ++ .stop tag :: t)) : WN st (elem tag inner ++ t) := by
@@ -95,7 +95,8 @@ theorem headNotText_elem (tag : Bytes) (inner t : List Ev) : headNotText (elem t
 
 /-- a run of elements (the items of a list) -/
 theorem WN_items (st : List Bytes) (tag : Bytes) (s : Sch) (hg : goodName tag = true)
-    (hs : ∀ (v : Val) (st : List Bytes) (t : List Ev), WN st t → headNotText t = true → WN st (encode s v ++ t)) :
+    (hs : ∀ (v : Val) (st : List Bytes), st ≠ [] → ∀ (t : List Ev), WN st t → headNotText t = true →
+      WN st (encode s v ++ t)) :
     ∀ (vs : List Val) (t : List Ev), WN st t → headNotText t = true →
       WN st ((vs.flatMap fun v => elem tag (encode s v)) ++ t) ∧
       headNotText ((vs.flatMap fun v => elem tag (encode s v)) ++ t) = true
@@ -104,41 +105,42 @@ theorem WN_items (st : List Bytes) (tag : Bytes) (s : Sch) (hg : goodName tag = 
     obtain ⟨ih1, _⟩ := WN_items st tag s hg hs vs t ht hh
     simp only [List.flatMap_cons, List.append_assoc]
     refine ⟨WN_elem st tag _ _ hg ?_, headNotText_elem _ _ _⟩
-    exact hs v (tag :: st) _ (WN_stop st tag _ hg ih1) (by simp [headNotText, Ev.isTextB])
+    exact hs v (tag :: st) (by simp) _ (WN_stop st tag _ hg ih1) (by simp [headNotText, Ev.isTextB])
 
 mutual
-  theorem WN_encode : ∀ (s : Sch) (v : Val), s.tagsGood = true → ∀ (st : List Bytes) (t : List Ev), WN st t →
-      headNotText t = true → WN st (encode s v ++ t)
-    | .struct fs, .struct vs, hg, st, t, ht, hh => by
+  /-- the content of an element (`st ≠ []`: the serialiser writes character data only inside an element) -/
+  theorem WN_encode : ∀ (s : Sch) (v : Val), s.tagsGood = true → ∀ (st : List Bytes), st ≠ [] → ∀ (t : List Ev),
+      WN st t → headNotText t = true → WN st (encode s v ++ t)
+    | .struct fs, .struct vs, hg, st, _, t, ht, hh => by
       simp only [Sch.tagsGood] at hg
       simp only [encode]
       exact (WN_encodeFields fs vs hg st t ht hh).1
-    | .union vars, .union tag v, hg, st, t, ht, hh => by
+    | .union vars, .union tag v, hg, st, _, t, ht, hh => by
       simp only [Sch.tagsGood] at hg
       simp only [encode]
       exact (WN_encodeVariant vars tag v hg st t ht hh).1
-    | .str, .str b, _, st, t, ht, hh => by simp only [encode]; exact WN_textEv st _ t ht hh
-    | .enm, .str b, _, st, t, ht, hh => by simp only [encode]; exact WN_textEv st _ t ht hh
-    | .i32, .int i, _, st, t, ht, hh => by simp only [encode]; exact WN_textEv st _ t ht hh
-    | .i64, .int i, _, st, t, ht, hh => by simp only [encode]; exact WN_textEv st _ t ht hh
-    | .bool, .bool b, _, st, t, ht, hh => by simp only [encode]; exact WN_textEv st _ t ht hh
-    | .ts f, .ts x, _, st, t, ht, hh => by simp only [encode]; exact WN_textEv st _ t ht hh
-    | .str, .int _, _, _, _, ht, _ | .str, .bool _, _, _, _, ht, _ | .str, .ts _, _, _, _, ht, _
-    | .str, .struct _, _, _, _, ht, _ | .str, .union _ _, _, _, _, ht, _ => by simpa [encode] using ht
-    | .enm, .int _, _, _, _, ht, _ | .enm, .bool _, _, _, _, ht, _ | .enm, .ts _, _, _, _, ht, _
-    | .enm, .struct _, _, _, _, ht, _ | .enm, .union _ _, _, _, _, ht, _ => by simpa [encode] using ht
-    | .i32, .str _, _, _, _, ht, _ | .i32, .bool _, _, _, _, ht, _ | .i32, .ts _, _, _, _, ht, _
-    | .i32, .struct _, _, _, _, ht, _ | .i32, .union _ _, _, _, _, ht, _ => by simpa [encode] using ht
-    | .i64, .str _, _, _, _, ht, _ | .i64, .bool _, _, _, _, ht, _ | .i64, .ts _, _, _, _, ht, _
-    | .i64, .struct _, _, _, _, ht, _ | .i64, .union _ _, _, _, _, ht, _ => by simpa [encode] using ht
-    | .bool, .str _, _, _, _, ht, _ | .bool, .int _, _, _, _, ht, _ | .bool, .ts _, _, _, _, ht, _
-    | .bool, .struct _, _, _, _, ht, _ | .bool, .union _ _, _, _, _, ht, _ => by simpa [encode] using ht
-    | .ts _, .str _, _, _, _, ht, _ | .ts _, .int _, _, _, _, ht, _ | .ts _, .bool _, _, _, _, ht, _
-    | .ts _, .struct _, _, _, _, ht, _ | .ts _, .union _ _, _, _, _, ht, _ => by simpa [encode] using ht
-    | .struct _, .str _, _, _, _, ht, _ | .struct _, .int _, _, _, _, ht, _ | .struct _, .bool _, _, _, _, ht, _
-    | .struct _, .ts _, _, _, _, ht, _ | .struct _, .union _ _, _, _, _, ht, _ => by simpa [encode] using ht
-    | .union _, .str _, _, _, _, ht, _ | .union _, .int _, _, _, _, ht, _ | .union _, .bool _, _, _, _, ht, _
-    | .union _, .ts _, _, _, _, ht, _ | .union _, .struct _, _, _, _, ht, _ => by simpa [encode] using ht
+    | .str, .str b, _, st, hst, t, ht, hh => by simp only [encode]; exact WN_textEv st hst _ t ht hh
+    | .enm, .str b, _, st, hst, t, ht, hh => by simp only [encode]; exact WN_textEv st hst _ t ht hh
+    | .i32, .int i, _, st, hst, t, ht, hh => by simp only [encode]; exact WN_textEv st hst _ t ht hh
+    | .i64, .int i, _, st, hst, t, ht, hh => by simp only [encode]; exact WN_textEv st hst _ t ht hh
+    | .bool, .bool b, _, st, hst, t, ht, hh => by simp only [encode]; exact WN_textEv st hst _ t ht hh
+    | .ts f, .ts x, _, st, hst, t, ht, hh => by simp only [encode]; exact WN_textEv st hst _ t ht hh
+    | .str, .int _, _, _, _, _, ht, _ | .str, .bool _, _, _, _, _, ht, _ | .str, .ts _, _, _, _, _, ht, _
+    | .str, .struct _, _, _, _, _, ht, _ | .str, .union _ _, _, _, _, _, ht, _ => by simpa [encode] using ht
+    | .enm, .int _, _, _, _, _, ht, _ | .enm, .bool _, _, _, _, _, ht, _ | .enm, .ts _, _, _, _, _, ht, _
+    | .enm, .struct _, _, _, _, _, ht, _ | .enm, .union _ _, _, _, _, _, ht, _ => by simpa [encode] using ht
+    | .i32, .str _, _, _, _, _, ht, _ | .i32, .bool _, _, _, _, _, ht, _ | .i32, .ts _, _, _, _, _, ht, _
+    | .i32, .struct _, _, _, _, _, ht, _ | .i32, .union _ _, _, _, _, _, ht, _ => by simpa [encode] using ht
+    | .i64, .str _, _, _, _, _, ht, _ | .i64, .bool _, _, _, _, _, ht, _ | .i64, .ts _, _, _, _, _, ht, _
+    | .i64, .struct _, _, _, _, _, ht, _ | .i64, .union _ _, _, _, _, _, ht, _ => by simpa [encode] using ht
+    | .bool, .str _, _, _, _, _, ht, _ | .bool, .int _, _, _, _, _, ht, _ | .bool, .ts _, _, _, _, _, ht, _
+    | .bool, .struct _, _, _, _, _, ht, _ | .bool, .union _ _, _, _, _, _, ht, _ => by simpa [encode] using ht
+    | .ts _, .str _, _, _, _, _, ht, _ | .ts _, .int _, _, _, _, _, ht, _ | .ts _, .bool _, _, _, _, _, ht, _
+    | .ts _, .struct _, _, _, _, _, ht, _ | .ts _, .union _ _, _, _, _, _, ht, _ => by simpa [encode] using ht
+    | .struct _, .str _, _, _, _, _, ht, _ | .struct _, .int _, _, _, _, _, ht, _ | .struct _, .bool _, _, _, _, _, ht, _
+    | .struct _, .ts _, _, _, _, _, ht, _ | .struct _, .union _ _, _, _, _, _, ht, _ => by simpa [encode] using ht
+    | .union _, .str _, _, _, _, _, ht, _ | .union _, .int _, _, _, _, _, ht, _ | .union _, .bool _, _, _, _, _, ht, _
+    | .union _, .ts _, _, _, _, _, ht, _ | .union _, .struct _, _, _, _, _, ht, _ => by simpa [encode] using ht
   theorem WN_encodeFields : ∀ (fs : Flds) (vs : List FVal), fs.tagsGood = true → ∀ (st : List Bytes) (t : List Ev),
       WN st t → headNotText t = true →
       WN st (encodeFields fs vs ++ t) ∧ headNotText (encodeFields fs vs ++ t) = true
@@ -149,13 +151,13 @@ mutual
       obtain ⟨⟨⟨hgt, hgm⟩, hgs⟩, hgr⟩ := hg
       obtain ⟨ih1, ih2⟩ := WN_encodeFields r fvs hgr st t ht hh
       rw [encodeFields_cons, List.append_assoc]
-      have hs := fun (v : Val) (st : List Bytes) (t : List Ev) => WN_encode s v hgs st t
+      have hs := fun (v : Val) (st : List Bytes) (hst : st ≠ []) (t : List Ev) => WN_encode s v hgs st hst t
       cases shape with
       | single =>
         cases fv with
         | one v =>
           simp only [encField]
-          exact ⟨WN_elem st tag _ _ hgt (hs v _ _ (WN_stop st tag _ hgt ih1) (by simp [headNotText, Ev.isTextB])),
+          exact ⟨WN_elem st tag _ _ hgt (hs v _ (by simp) _ (WN_stop st tag _ hgt ih1) (by simp [headNotText, Ev.isTextB])),
             headNotText_elem _ _ _⟩
         | absent => simpa [encField] using ⟨ih1, ih2⟩
         | many _ => simpa [encField] using ⟨ih1, ih2⟩
@@ -183,7 +185,7 @@ mutual
       obtain ⟨⟨hgt, hgs⟩, hgr⟩ := hg
       simp only [encodeVariant]
       split
-      · exact ⟨WN_elem st tg _ _ hgt (WN_encode s v hgs _ _ (WN_stop st tg _ hgt ht) (by simp [headNotText, Ev.isTextB])),
+      · exact ⟨WN_elem st tg _ _ hgt (WN_encode s v hgs _ (by simp) _ (WN_stop st tg _ hgt ht) (by simp [headNotText, Ev.isTextB])),
           headNotText_elem _ _ _⟩
       · exact WN_encodeVariant r tag v hgr st t ht hh
 end
@@ -205,7 +207,7 @@ theorem tokenize_write_doc (root : SerRoot) (s : Sch) (v : Val) (hr : root.tagsG
     · simp [encodeDoc, headNotText, Ev.isTextB]
     · simp only [encodeDoc, WN]
       refine ⟨hr, goodRest_nsAttr ns, ?_⟩
-      exact WN_encode s v hs [tag] [.stop tag] (WN_stop [] tag [] hr hnil) (by simp [headNotText, Ev.isTextB])
+      exact WN_encode s v hs [tag] (by simp) [.stop tag] (WN_stop [] tag [] hr hnil) (by simp [headNotText, Ev.isTextB])
   | nested o i ns =>
     simp only [SerRoot.tagsGood, Bool.and_eq_true] at hr
     apply tokenize_write
@@ -213,7 +215,7 @@ theorem tokenize_write_doc (root : SerRoot) (s : Sch) (v : Val) (hr : root.tagsG
     · simp only [encodeDoc, WN, List.cons_append]
       refine ⟨hr.1, goodRest_nsAttr ns, ?_⟩
       have := WN_elem [o] i (encode s v) [.stop o] hr.2
-        (WN_encode s v hs [i, o] [.stop i, .stop o] (WN_stop [o] i [.stop o] hr.2 (WN_stop [] o [] hr.1 hnil))
+        (WN_encode s v hs [i, o] (by simp) [.stop i, .stop o] (WN_stop [o] i [.stop o] hr.2 (WN_stop [] o [] hr.1 hnil))
           (by simp [headNotText, Ev.isTextB]))
       simpa using this
   | location tag ns =>
@@ -229,7 +231,7 @@ theorem tokenize_write_doc (root : SerRoot) (s : Sch) (v : Val) (hr : root.tagsG
       apply tokenize_write
       · simp [headNotText, Ev.isTextB]
       · simp only [WN]
-        exact ⟨hr, goodRest_nsAttr ns, WN_textEv [tag] _ [.stop tag] (WN_stop [] tag [] hr hnil)
+        exact ⟨hr, goodRest_nsAttr ns, WN_textEv [tag] (by simp) _ [.stop tag] (WN_stop [] tag [] hr hnil)
           (by simp [headNotText, Ev.isTextB])⟩
     · rw [hb]
       apply tokenize_write
